@@ -29,14 +29,16 @@ static HV check06(const C06Case &c) {
     assemblyline_t a = asm_create_instance(buf.data(), (int)n); al::apply_opts(a, combo_opts(c.combo)); asm_set_offset(a, c.start);
     // split at the cut positions (line indices) into successive calls
     size_t li = 0; std::vector<int> cuts = c.cuts; std::sort(cuts.begin(), cuts.end()); cuts.push_back((int)c.lines.size());
-    int rc = 0;
+    int rc = 0; int ncall = rep;
     for (int cut : cuts) {
       if (cut <= (int)li && cut != (int)c.lines.size()) continue; if ((size_t)cut > c.lines.size()) cut = (int)c.lines.size();
       std::string chunk; for (; li < (size_t)cut; li++) { if (c.noise && (li % 3) == 0) chunk += li % 2 ? "; comment\n" : "\nlabel_x:\n"; chunk += c.lines[li] + "\n"; }
       if (chunk.empty() && cut != (int)c.lines.size()) continue;
-      rc = asm_assemble_str(a, chunk.c_str()); if (rc != 0) break;
+      // the deprecated spelling of the entry point is an entry point too
+      rc = (ncall++ & 1) ? assemble_str(a, chunk.c_str()) : asm_assemble_str(a, chunk.c_str()); if (rc != 0) break;
     }
-    int off = asm_get_offset(a); asm_destroy_instance(a);
+    int off = asm_get_offset(a); bool samebuf = (void *)asm_get_buffer(a) == asm_get_code(a) && asm_get_code(a) == (void *)buf.data(); asm_destroy_instance(a);
+    if (!samebuf) return bad("buffer-pointer", "asm_get_code / asm_get_buffer do not return the attached buffer");
     if (rc != 0) return bad("rejected", "a call failed although every line assembles alone");
     if (off != (int)(c.start + want.size())) return bad("offset", "final offset " + std::to_string(off) + " ; want start " + std::to_string(c.start) + " + " + std::to_string(want.size()));
     std::vector<uint8_t> got(buf.begin() + c.start, buf.begin() + off);
@@ -177,7 +179,7 @@ static HV check14(const ChunkCase &k, int *expected_out = nullptr) {
   size_t pos = k.start;
   for (int call = 0; call < std::max(1, k.calls); call++) {
     std::string text = join(k.lines); std::vector<char> w(text.begin(), text.end()); w.push_back(0);
-    int cnt = -12345; int rc = asm_assemble_string_counting_chunks(a, w.data(), k.c, &cnt); int off = asm_get_offset(a);
+    int cnt = -12345; int rc = (call & 1) ? assemble_string_counting_chunks(a, w.data(), k.c, &cnt) : asm_assemble_string_counting_chunks(a, w.data(), k.c, &cnt); int off = asm_get_offset(a);
     if (rc != 0) { asm_destroy_instance(a); return bad("rejected", "counting call " + std::to_string(call) + " failed"); }
     int want = expected_breaks(ins, pos, k.c < 2 ? 0 : (size_t)k.c); if (expected_out && call == 0) *expected_out = want;
     if (off != (int)(pos + total)) { asm_destroy_instance(a); return bad("offset", "offset " + std::to_string(off) + " want " + std::to_string(pos + total)); }
